@@ -101,6 +101,16 @@ func init() {
 				{File: "internal/flood/flood.go", Old: "\tvar path []identity.AgentID\n\tif encPath != nil {\n\t\tif encPath.Encrypted {\n\t\t\t// Legacy: try to decrypt if we have the private key\n\t\t\t// (for backwards compatibility with old encrypted paths)\n\t\t\tif f.sealedBox != nil && f.sealedBox.CanDecrypt() {\n\t\t\t\tdecrypted, err := f.sealedBox.Open(encPath.Data)\n\t\t\t\tif err == nil {\n\t\t\t\t\tpath, _ = protocol.DecodePath(decrypted)\n\t\t\t\t}\n\t\t\t}\n\t\t\t// If we can't decrypt, path remains nil (routing will fail)\n\t\t} else {\n\t\t\t// Plaintext - decode directly (normal case)\n\t\t\tpath, _ = protocol.DecodePath(encPath.Data)\n\t\t}\n\t}\n", New: "\tpath := f.decodeAdvertisedPath(encPath)\n"},
 				{File: "internal/flood/flood.go", Old: "// floodWithdrawal sends a route withdrawal to all peers except the source.", New: "func (f *Flooder) decodeAdvertisedPath(encPath *protocol.EncryptedData) []identity.AgentID {\n\tif encPath == nil {\n\t\treturn nil\n\t}\n\tif !encPath.Encrypted {\n\t\tdecoded, _ := protocol.DecodePath(encPath.Data)\n\t\treturn decoded\n\t}\n\tif f.sealedBox == nil || !f.sealedBox.CanDecrypt() {\n\t\treturn nil\n\t}\n\tplain, err := f.sealedBox.Open(encPath.Data)\n\tif err != nil {\n\t\treturn nil\n\t}\n\tdecoded, _ := protocol.DecodePath(plain)\n\treturn decoded\n}\n\n// floodWithdrawal sends a route withdrawal to all peers except the source."},
 			}},
+			{Name: "rewrite: path after the next hop by slices.Index + slices.Clone in a helper", Edits: []Edit{
+				{File: "internal/agent/icmp.go", Old: "\tvar remainingPath []identity.AgentID\n\trPath := route.Path\n\tfor i, id := range rPath {\n\t\tif id == nextHop && i+1 < len(rPath) {\n\t\t\tremainingPath = make([]identity.AgentID, len(rPath)-i-1)\n\t\t\tcopy(remainingPath, rPath[i+1:])\n\t\t\tbreak\n\t\t}\n\t}\n\n\tstreamID := conn.NextStreamID()\n\trequestID := generateICMPRequestID()\n\n\tephPriv, ephPub, err := crypto.GenerateEphemeralKeypair()\n\tif err != nil {\n\t\treturn 0, err\n\t}\n", New: "\trPath := route.Path\n\tremainingPath := pathBeyond(rPath, nextHop)\n\n\tstreamID := conn.NextStreamID()\n\trequestID := generateICMPRequestID()\n\n\tephPriv, ephPub, err := crypto.GenerateEphemeralKeypair()\n\tif err != nil {\n\t\treturn 0, err\n\t}\n"},
+				{File: "internal/agent/icmp.go", Old: "\t\"net\"\n\t\"sync\"\n", New: "\t\"net\"\n\t\"slices\"\n\t\"sync\"\n"},
+				{File: "internal/agent/icmp.go", Old: "// CreateICMPSession implements socks5.ICMPHandler.", New: "func pathBeyond(path []identity.AgentID, nextHop identity.AgentID) []identity.AgentID {\n\ti := slices.Index(path, nextHop)\n\tif i < 0 || i+1 >= len(path) {\n\t\treturn nil\n\t}\n\treturn slices.Clone(path[i+1:])\n}\n\n// CreateICMPSession implements socks5.ICMPHandler."},
+			}},
+			{Name: "path helper slices after a next hop that may not be in the path", ExpectRule: "C12.R3", ExpectKey: "CreateICMPSession", Edits: []Edit{
+				{File: "internal/agent/icmp.go", Old: "\tvar remainingPath []identity.AgentID\n\trPath := route.Path\n\tfor i, id := range rPath {\n\t\tif id == nextHop && i+1 < len(rPath) {\n\t\t\tremainingPath = make([]identity.AgentID, len(rPath)-i-1)\n\t\t\tcopy(remainingPath, rPath[i+1:])\n\t\t\tbreak\n\t\t}\n\t}\n\n\tstreamID := conn.NextStreamID()\n\trequestID := generateICMPRequestID()\n\n\tephPriv, ephPub, err := crypto.GenerateEphemeralKeypair()\n\tif err != nil {\n\t\treturn 0, err\n\t}\n", New: "\trPath := route.Path\n\tremainingPath := pathBeyond(rPath, nextHop)\n\n\tstreamID := conn.NextStreamID()\n\trequestID := generateICMPRequestID()\n\n\tephPriv, ephPub, err := crypto.GenerateEphemeralKeypair()\n\tif err != nil {\n\t\treturn 0, err\n\t}\n"},
+				{File: "internal/agent/icmp.go", Old: "\t\"net\"\n\t\"sync\"\n", New: "\t\"net\"\n\t\"slices\"\n\t\"sync\"\n"},
+				{File: "internal/agent/icmp.go", Old: "// CreateICMPSession implements socks5.ICMPHandler.", New: "func pathBeyond(path []identity.AgentID, nextHop identity.AgentID) []identity.AgentID {\n\ti := slices.Index(path, nextHop)\n\tif i+1 >= len(path) {\n\t\treturn nil\n\t}\n\treturn slices.Clone(path[i+1:])\n}\n\n// CreateICMPSession implements socks5.ICMPHandler."},
+			}},
 			{Name: "rewrite: if-chain dispatch entry, swapped comparison", Edits: []Edit{
 				{File: "internal/agent/agent.go", Old: "func (a *Agent) processFrame(peerID identity.AgentID, frame *protocol.Frame) {\n\tswitch frame.Type {\n\tcase protocol.FrameStreamOpen:\n\t\ta.handleStreamOpen(peerID, frame)\n", New: "func (a *Agent) processFrame(peerID identity.AgentID, frame *protocol.Frame) {\n\tif protocol.FrameStreamOpen == frame.Type {\n\t\ta.handleStreamOpen(peerID, frame)\n\t\treturn\n\t}\n\tswitch frame.Type {\n"},
 			}},
@@ -526,6 +536,10 @@ func c12Tails(v ssa.Value) []c12Tail {
 			return
 		case *ssa.Call:
 			cal := kit.CalleeOf(x)
+			if cal.Pkg == "slices" && cal.Name == "Clone" && len(x.Call.Args) == 1 {
+				rec(x.Call.Args[0], sl, depth+1) // a copy of its argument
+				return
+			}
 			if cal.Built == "append" && len(x.Call.Args) == 2 {
 				// append([]T(nil), tail...) style copy
 				if c, ok := x.Call.Args[0].(*ssa.Const); ok && c.Value == nil {
@@ -562,7 +576,20 @@ func c12Tails(v ssa.Value) []c12Tail {
 					if f := kit.FieldOfAddr(fa); f != nil && (f.Name() == "Path" || f.Name() == "RemainingPath") {
 						t := c12Tail{base: fa.X, field: f.Name(), slice: sl, pathOf: x}
 						if t.field == "Path" {
-							t.off = c12OffsetAfterNextHop(t)
+							t.off = c12OffsetAfterNextHop(t, func(v ssa.Value) ssa.Value {
+								for i := 0; i < 4; i++ {
+									prm, ok := v.(*ssa.Parameter)
+									if !ok {
+										break
+									}
+									b, ok := bind[prm]
+									if !ok {
+										break
+									}
+									v = b
+								}
+								return v
+							})
 						}
 						out = append(out, t)
 						return
@@ -762,7 +789,7 @@ func c12CheckOpen(p *kit.Program, V, D ssa.Value, depth int) []string {
 // c12OffsetAfterNextHop: the slice of the stored path starts right after the next hop:
 // Path[1:] (the next hop is Path[0] by construction of stored paths), or Path[i+1:] under a guard
 // Path[i] == NextHop of the same record.
-func c12OffsetAfterNextHop(t c12Tail) []string {
+func c12OffsetAfterNextHop(t c12Tail, res func(ssa.Value) ssa.Value) []string {
 	if t.slice == nil {
 		return []string{"the whole stored path is sent as remaining path (the next hop itself must be dropped): the next hop finds itself as the next relay and fails the open"}
 	}
@@ -792,6 +819,46 @@ func c12OffsetAfterNextHop(t c12Tail) []string {
 	if idx == nil {
 		return []string{"the remaining path does not start right after the next hop (index+1 expected)"}
 	}
+	samePath := func(v ssa.Value) bool {
+		v = res(v)
+		return v == t.pathOf || c11SameLoad(v, t.pathOf)
+	}
+	// i = slices.Index(Path, NextHop) with i == -1 excluded
+	if ic, ok := idx.(*ssa.Call); ok && len(ic.Call.Args) == 2 {
+		if cal := kit.CalleeOf(ic); cal.Pkg == "slices" && cal.Name == "Index" {
+			if !samePath(ic.Call.Args[0]) || !samePath(t.slice.X) {
+				return []string{"the index of the next hop is searched in another list than the stored path that is sliced"}
+			}
+			if !c12IsNextHopOf(res(ic.Call.Args[1]), t.base) {
+				return []string{"the stored path is cut after the position of a value that is not the NextHop of the same route"}
+			}
+			for _, g := range c11Guards(t.slice) {
+				bo, ok := g.Cond.(*ssa.BinOp)
+				if !ok {
+					continue
+				}
+				var k int64
+				var isc, idxLeft bool
+				if bo.X == idx {
+					k, isc = kit.ConstInt(bo.Y)
+					idxLeft = true
+				} else if bo.Y == idx {
+					k, isc = kit.ConstInt(bo.X)
+				}
+				if !isc {
+					continue
+				}
+				a, b := int64(-1), k
+				if !idxLeft {
+					a, b = k, int64(-1)
+				}
+				if c15Cmp(bo.Op, a, b) != g.Polarity {
+					return nil // "not found" (-1) cannot reach the slice
+				}
+			}
+			return []string{"the slice Path[i+1:] is reachable with i == -1 (next hop not found in the stored path): the whole path would be sent"}
+		}
+	}
 	for _, g := range c11Guards(t.slice) {
 		bo, ok := g.Cond.(*ssa.BinOp)
 		if !ok || !((bo.Op == token.EQL && g.Polarity) || (bo.Op == token.NEQ && !g.Polarity)) {
@@ -804,10 +871,10 @@ func c12OffsetAfterNextHop(t c12Tail) []string {
 				continue
 			}
 			ia, ok := u.X.(*ssa.IndexAddr)
-			if !ok || ia.Index != idx || !(ia.X == t.pathOf || c11SameLoad(ia.X, t.pathOf)) {
+			if !ok || ia.Index != idx || !samePath(ia.X) {
 				continue
 			}
-			if c12IsNextHopOf(other, t.base) {
+			if c12IsNextHopOf(res(other), t.base) {
 				return nil
 			}
 		}
